@@ -338,3 +338,8 @@ def run(ctx):
         ctx.ob("C13.R6", L.short(fn), ok, fn.loc,
                "the coroutine must be resumed inline exactly when the executor refused the resumption task "
                "(both -> double resume, neither -> never resumed)")
+
+
+SWEEP = ["coroutine/test_futex.cpp",
+         "coroutine/test_task.cpp",
+         "coroutine/test_cancelable.cpp"]
